@@ -941,12 +941,27 @@ struct Cfg {
     qlen: usize,
     dbuf: usize,
     inputs: Vec<u8>,
+    /// the slave's ident / configuration when they differ from the master's options (mismatch cases)
+    s_ident: Option<u16>,
+    s_cfg: Option<Vec<u8>>,
 }
 
 impl Cfg {
+    fn slave_text(&self) -> String {
+        format!(
+            "{}:{}:{}:{}:{}:{}:{}",
+            self.addr,
+            self.s_ident.unwrap_or(self.ident),
+            self.prm.len(),
+            hex(self.s_cfg.as_ref().unwrap_or(&self.cfg)),
+            self.ilen,
+            self.qlen,
+            hex(&self.inputs)
+        )
+    }
     fn new_line(&self) -> String {
         format!(
-            "dl.new {} 500000 {} {} {} {}:{}:00:0:{}:{}:{}:{}:{} {}:{}:{}:{}:{}:{}:{}",
+            "dl.new {} 500000 {} {} {} {}:{}:00:0:{}:{}:{}:{}:{} {}",
             self.own,
             self.retry,
             self.wd.map(|x| x.to_string()).unwrap_or("-".to_string()),
@@ -958,13 +973,7 @@ impl Cfg {
             self.ilen,
             self.qlen,
             self.dbuf,
-            self.addr,
-            self.ident,
-            self.prm.len(),
-            hex(&self.cfg),
-            self.ilen,
-            self.qlen,
-            hex(&self.inputs)
+            self.slave_text()
         )
     }
     /// Bound of the oracle (engine turns that are not global-control broadcasts).
@@ -987,6 +996,8 @@ fn small_cfg(retry: u64, ilen: usize) -> Cfg {
         qlen: 2,
         dbuf: 8,
         inputs: (0..ilen).map(|i| 0xc0 + i as u8).collect(),
+        s_ident: None,
+        s_cfg: None,
     }
 }
 
@@ -1007,6 +1018,8 @@ fn random_cfg(rng: &mut Rng) -> Cfg {
         qlen: *rng.pick(&[0usize, 1, 2, 8]),
         dbuf: *rng.pick(&[0usize, 4, 16]),
         inputs: rng.bytes(ilen),
+        s_ident: None,
+        s_cfg: None,
     }
 }
 
@@ -1143,7 +1156,12 @@ pub fn gen(ops: &mut Vec<String>, seed: u64, thorough: bool) {
     let n = if thorough { 6000 } else { 400 };
     for case in 0..n {
         let mut rng = Rng::new(seed, "dplive", case);
-        let c = random_cfg(&mut rng);
+        let mut c = random_cfg(&mut rng);
+        match rng.below(16) {
+            0 => c.s_ident = Some(c.ident.wrapping_add(1)),
+            1 => c.s_cfg = Some(vec![0xee]),
+            _ => {}
+        }
         let subs = sub_alphabet(&c);
         let depth = rng.range(1, 40) as usize;
         let loss_heavy = rng.chance(1, 3);
@@ -1169,6 +1187,18 @@ pub fn gen(ops: &mut Vec<String>, seed: u64, thorough: bool) {
         let dt = *rng.pick(&[500i64, 3000, 7000, 15000]);
         run_case(ops, &c, warm, &h, dt);
     }
+    // --- mismatching slaves (outside C07's liveness scope; correspondence and life-cycle order only) ---
+    {
+        let mut bad_cfg = small_cfg(1, 1);
+        bad_cfg.s_cfg = Some(vec![0x11, 0x22]);
+        let mut bad_ident = small_cfg(2, 1);
+        bad_ident.s_ident = Some(0x1111);
+        for c in [bad_cfg, bad_ident] {
+            for warm in [0u64, 9] {
+                enumerate(&a6, 3, &mut |h| run_case(ops, &c, warm, h, 3000));
+            }
+        }
+    }
     gen_multi(ops, seed, thorough);
 }
 
@@ -1187,7 +1217,7 @@ fn multi_new_line(cs: &[Cfg]) -> String {
     );
     for c in cs {
         s.push_str(&format!(
-            " {}:{}:00:0:{}:{}:{}:{}:{} {}:{}:{}:{}:{}:{}:{}",
+            " {}:{}:00:0:{}:{}:{}:{}:{} {}",
             c.addr,
             c.ident,
             hex(&c.prm),
@@ -1195,13 +1225,7 @@ fn multi_new_line(cs: &[Cfg]) -> String {
             c.ilen,
             c.qlen,
             c.dbuf,
-            c.addr,
-            c.ident,
-            c.prm.len(),
-            hex(&c.cfg),
-            c.ilen,
-            c.qlen,
-            hex(&c.inputs)
+            c.slave_text()
         ));
     }
     s
@@ -1299,6 +1323,11 @@ fn gen_multi(ops: &mut Vec<String>, seed: u64, thorough: bool) {
         for i in 0..k {
             let mut c = random_cfg(&mut rng);
             c.addr = 10 + 7 * i as u8 + rng.below(5) as u8;
+            match rng.below(24) {
+                0 => c.s_ident = Some(c.ident.wrapping_add(1)),
+                1 => c.s_cfg = Some(vec![0xee]),
+                _ => {}
+            }
             if i > 0 {
                 c.own = cs[0 as usize].own;
                 c.retry = cs[0 as usize].retry;
